@@ -10,10 +10,16 @@ EXTENDS FoxStrings
 \*   error, string, nilval (panic(nil) -> *runtime.PanicNilError), custom
 \*   brokenPipeWrapped / connResetNested   the same syscall error one level deeper inside the *net.OpError (wrapped
 \*                  with %w, or carried by a nested *net.OpError)
-Classes == {"abort", "wrappedAbort", "brokenPipe", "connReset", "brokenPipeWrapped", "connResetNested", "otherOpError", "error", "string", "nilval", "custom"}
-Progress == {"none", "header", "partial", "flushed", "emptycopy"}   \* flushed: the header went out through Flush, no explicit WriteHeader
+\*   nilErrPtr / nilOpError / panickyError   panic values whose own methods panic: a nil pointer of an error type
+\*                  whose Error dereferences it, a nil *net.OpError (Error and Unwrap dereference it), an error
+\*                  whose Error method always panics. "A panic with any value": they are recovered like any other
+\*                  value (F20: the recovery itself panicked while rendering them)
+Classes == {"abort", "wrappedAbort", "brokenPipe", "connReset", "brokenPipeWrapped", "connResetNested", "otherOpError", "error", "string", "nilval", "custom",
+            "nilErrPtr", "nilOpError", "panickyError"}
+Progress == {"none", "header", "partial", "flushed", "emptycopy", "info"}   \* flushed: the header went out through Flush, no explicit WriteHeader
 \* emptycopy: the handler copied a source that yields nothing into the writer (ReadFrom / io.Copy): nothing went out
-NothingSent(progress) == progress \in {"none", "emptycopy"}
+\* info: only an informational header (103 Early Hints) went out: no final header, no body byte, the 500 reply is due
+NothingSent(progress) == progress \in {"none", "emptycopy", "info"}
 
 Repanic(class) == class \in {"abort", "wrappedAbort"}
 Broken(class) == class \in {"brokenPipe", "connReset", "brokenPipeWrapped", "connResetNested"}
